@@ -144,7 +144,7 @@ Proof.
     change (plen_of b) with (len (payload b)). rewrite ztake_app, zdrop_app.
     unfold payload at 1. replace (pb_codec b =? 0) with false by lia. rewrite decomp_law.
     unfold bind at 1, set_lrem. cbn [m_stack m_empty m_elast set_stack set_rd fst snd f_base f_count f_hdr f_in f_remain].
-    unfold stp. f_equal. f_equal. f_equal. f_equal. lia. }
+    Show. unfold stp. f_equal. f_equal. f_equal. f_equal. lia. }
   fold (vhdr b (plen_of b)). fold (hdr_of b). rewrite Hprep. clear Hprep.
   rewrite Hrecs at 1. unfold erecs at 1. cbn [enc_records flat_map]. fold (erecs b rs').
   unfold hdr_of, vhdr.
